@@ -832,7 +832,13 @@ class Scenario:
         n = 2 if k > 0.96 else 1
         out = []
         for _ in range(n):
-            name = r.choices(["rt", "if", "ct", "href", "title", "sz", "foo", "obs"], [16, 8, 8, 12, 4, 2, 2, 1])[0]
+            name = r.choices(["rt", "if", "ct", "href", "title", "sz", "foo", "obs", "@PY"], [16, 8, 8, 12, 4, 2, 2, 1, 3])[0]
+            if name == "@PY":
+                # attribute names no link carries, among them names that mean something on the Python objects the
+                # implementation happens to represent links with: a filter on them matches nothing
+                name = r.choice(["__module__", "__dict__", "__class__", "__doc__", "__weakref__", "attr_pairs", "to_py", "get_target", "get_context", "links", "as_link_format", "rel", "anchor", "nosuchattr", "hreflang"])
+                out.append("%s=%s" % (name, r.choice(["aiocoap.util.linkformat", "aiocoap*", "href", "attr*", "x", "*", "builtins*", "", "<*", "None"])))
+                continue
             pool = []
             for l in links:
                 if name == "href":
